@@ -183,7 +183,7 @@ class _QueryResponse:
         """
         if TYPE_CHECKING:
             record = cast(_UniqueRecordsType, record)
-        maybe_entry = self._cache.async_get_unique(record)
+        maybe_entry = self._get_unique_ignoring_scope(record)
         return bool(maybe_entry is not None and maybe_entry.is_recent(self._now))
 
     def _has_mcast_record_in_last_second(self, record: DNSRecord) -> bool:
@@ -193,8 +193,26 @@ class _QueryResponse:
         """
         if TYPE_CHECKING:
             record = cast(_UniqueRecordsType, record)
-        maybe_entry = self._cache.async_get_unique(record)
+        maybe_entry = self._get_unique_ignoring_scope(record)
         return bool(maybe_entry is not None and self._now - maybe_entry.created < _ONE_SECOND)
+
+    def _get_unique_ignoring_scope(self, record: _UniqueRecordsType) -> Optional[DNSRecord]:
+        """Find our own record in the cache.
+
+        Our own address records have no scope id; heard back on an IPv6
+        socket they are cached with the scope id of the receiving interface
+        (one copy per interface): the most recently seen copy counts.
+        """
+        maybe_entry = self._cache.async_get_unique(record)
+        if maybe_entry is None and isinstance(record, DNSAddress):
+            for entry in self._cache.async_all_by_details(record.name, record.type, record.class_):
+                if (
+                    isinstance(entry, DNSAddress)
+                    and entry.address == record.address
+                    and (maybe_entry is None or entry.created > maybe_entry.created)
+                ):
+                    maybe_entry = entry
+        return maybe_entry
 
 
 class QueryHandler:
